@@ -7,10 +7,12 @@
    (Proofs/C08.v), which are what the correspondence run validates stage by stage on the implementation. *)
 From DV Require Import Base.Tactics.
 
-Inductive key := Kspace | MaskedKspace | Target | SensMap | SamplingMask | AcsMask | Padding | ScalingFactor | BodyCoil | IsSSL | KOther.
+Inductive key := Kspace | MaskedKspace | Target | SensMap | SamplingMask | AcsMask | Padding | ScalingFactor | BodyCoil | IsSSL | KOther
+  | InputMask | TargetMask | InputMaskedKspace | TargetMaskedKspace | InputKspace.   (* self-supervised split *)
 Definition key_idx (k : key) : nat :=
   match k with Kspace => 0 | MaskedKspace => 1 | Target => 2 | SensMap => 3 | SamplingMask => 4 | AcsMask => 5 | Padding => 6
-             | ScalingFactor => 7 | BodyCoil => 8 | IsSSL => 9 | KOther => 10 end.
+             | ScalingFactor => 7 | BodyCoil => 8 | IsSSL => 9 | KOther => 10
+             | InputMask => 11 | TargetMask => 12 | InputMaskedKspace => 13 | TargetMaskedKspace => 14 | InputKspace => 15 end.
 Definition key_eqb (a b : key) : bool := Nat.eqb (key_idx a) (key_idx b).
 Lemma key_eqb_eq a b : key_eqb a b = true <-> a = b.
 Proof. unfold key_eqb. rewrite Nat.eqb_eq. split; [|intros ->; reflexivity]. destruct a, b; cbn; intros H; try reflexivity; discriminate. Qed.
@@ -30,7 +32,9 @@ Inductive stage :=
 | SScaling (sk : skey) (percentile : bool) (dst : key)
 | SNormalize (sf : key) (keys : list key)
 | SImage (src dst : key) (needs_sens : bool)   (* SENSE-type reconstructions read the sensitivity map *)
-| SFlag (dst : key).                           (* AddBooleanKeys *)
+| SFlag (dst : key)                            (* AddBooleanKeys *)
+| SSplit (mask src acs : key)                  (* mask splitter: input / target masks from the sampling mask, both k-spaces *)
+| SRename (pairs : list (key * key)).
 
 (* how a value was obtained *)
 Inductive tm :=
@@ -48,6 +52,7 @@ Inductive tm :=
 | TDiv (t s : tm)
 | TImage (t : tm)
 | TImageS (t s : tm)
+| TSplit (target : bool) (m acs : tm)          (* one of the two masks the splitter draws from the sampling mask *)
 | TConst.
 
 Definition env := list (key * tm).
@@ -103,6 +108,21 @@ Definition sym_step (s : stage) (e : env) : option env :=
                            | _, _ => None
                            end
   | SFlag dst => Some (set dst TConst e)
+  | SSplit m src acs => match lookup m e, lookup src e with
+                        | Some mt, Some t =>
+                            let a := match lookup acs e with Some a' => a' | None => TNoPad end in
+                            let mi := TSplit false mt a in
+                            let mg := TSplit true mt a in
+                            Some (set TargetMask mg (set InputMask mi (set TargetMaskedKspace (TMasked mg t) (set InputMaskedKspace (TMasked mi t) e))))
+                        | _, _ => None
+                        end
+  | SRename pairs => fold_left (fun oe p => match oe with
+                                            | Some e' => match lookup (fst p) e' with
+                                                         | Some t => Some (set (snd p) t (remove (fst p) e'))
+                                                         | None => None
+                                                         end
+                                            | None => None
+                                            end) pairs (Some e)
   end.
 
 Fixpoint sym_run (p : list stage) (e : env) : option env :=
@@ -130,6 +150,7 @@ Fixpoint tdeg (t : tm) : option nat :=
                 end
   | TImage t => tdeg t
   | TImageS t s => match tdeg t, tdeg s with Some d, Some 0 => Some d | _, _ => None end
+  | TSplit _ m a => match tdeg m, tdeg a with Some 0, Some 0 => Some 0 | _, _ => None end
   | TConst => Some 0
   end.
 
